@@ -20,6 +20,7 @@ class FakeNet(object):
         self.blackhole = set()     # frozenset({owner_a, owner_b})
         self.conns = {}            # conn id -> [dial sock, accept sock]
         self.owner_of_port = {}
+        self.netdown = set()       # owners whose connect() fails synchronously (interface / route down)
 
     def path_up(self, a, b):
         return frozenset((a, b)) not in self.blackhole
@@ -44,6 +45,7 @@ class FakeSocket(object):
         self.target = None
         self.conn_id = 0
         self.role = None            # 'd' dialer side / 'a' acceptor side
+        self.t_data = net.now       # when this end last received bytes (or was created / established)
 
     # -- API used by the library
     def fileno(self):
@@ -81,6 +83,9 @@ class FakeSocket(object):
         return s, ('127.0.0.1', 0)
 
     def connect(self, addr):
+        if self.owner in self.net.netdown:
+            # no route / interface down: connect() fails at once (not EINPROGRESS)
+            raise _real.error(errno.ENETUNREACH, 'network is unreachable')
         self.target = addr[1]
         self.state = 'syn'
         self.role = 'd'
@@ -106,6 +111,7 @@ class FakeSocket(object):
         peer.state, peer.peer, peer.role, peer.conn_id = 'est', self, 'a', self.conn_id
         self.peer = peer
         self.state = 'est'
+        self.t_data = peer.t_data = self.net.now
         self.net.conns[self.conn_id][1] = peer
         lst.accept_q.append(peer)
 
@@ -117,6 +123,7 @@ class FakeSocket(object):
         p = self.peer
         if p is not None and p.state == 'est' and self.net.path_up(self.owner, p.owner):
             p.rx += data
+            p.t_data = self.net.now
         # else: the kernel accepts the bytes; they are never delivered
         return len(data)
 
